@@ -27,7 +27,7 @@ BUDGET = {
 RULE = (
     "cases: C16's generated deterministic channel scripts x remote backend {thread, main_thread_only, gevent-name} run on "
     "popen (import bootstrap, reference), popen//python= (bare), ssh= (bare), ssh with ssh_config and python=, "
-    "popen//via= through a bare master, socket//installvia= on a bare master; oracle: identical transcripts, scripted "
+    "popen//via= through a bare master, socket//installvia= on a bare master, vagrant_ssh= (plain and with ssh_config + python=); one run in seven with EXECNET_DEBUG=1 in the workers' environment; oracle: identical transcripts, scripted "
     "outcomes, bootstrap kind of every child as expected, argv shape of every child.  Non-trivial = at least 3 steps on "
     "all six paths; distinct = distinct event-log digests of the bundle."
 )
